@@ -1042,7 +1042,29 @@ type withSlice struct {
 }
 
 var shapeNames = []string{"string", "error", "runtime.Error", "int", "nil", "slice", "map", "func", "struct with slice", "pointer", "slice-typed error",
-	"nil Runnable", "typed-nil Runnable", "errors of several concrete types"}
+	"nil Runnable", "typed-nil Runnable", "errors of several concrete types",
+	"error whose Error method panics (nil receiver)", "Stringer whose String method panics", "Formatter whose Format method panics",
+	"error whose Error method panics with a string"}
+
+// panic values whose own printing methods fail: whatever renders the recovered value must survive
+// that (package fmt does: it recovers panics of Error/String/Format), or the failure inside the
+// recovery kills the worker and the process
+type derefErr struct{ msg *string }
+
+func (e *derefErr) Error() string { return *e.msg + e.String() }
+func (e *derefErr) String() string { return *e.msg }
+
+type badStringer struct{ m map[string]int }
+
+func (b badStringer) String() string { b.m["x"]++; return "badStringer" }
+
+type badFormatter struct{}
+
+func (badFormatter) Format(f fmt.State, c rune) { var p *withSlice; _ = p.name }
+
+type shoutErr struct{}
+
+func (shoutErr) Error() string { panic("Error method panics") }
 
 func panicWith(shape int) {
 	switch shape {
@@ -1067,6 +1089,14 @@ func panicWith(shape int) {
 		panic(withSlice{"x", []int{1}})
 	case 9:
 		panic(&withSlice{"y", nil})
+	case 14:
+		panic(error(&derefErr{}))
+	case 15:
+		panic(badStringer{})
+	case 16:
+		panic(badFormatter{})
+	case 17:
+		panic(error(shoutErr{}))
 	default:
 		panic(sliceErr{"a", "b"})
 	}
